@@ -459,6 +459,9 @@ def r8_effective_priority_only(ctx):
 
 
 def run(ctx):
+    # E-stale (rules/stale.py): no snapshot of a self field is written back after a self-method call that may have changed it
+    from . import stale
+    stale.rule_stale(ctx, "C19.R9", "cascette_formats", r"src/(install|download|size)/")
     r8_effective_priority_only(ctx)
     r6_selector_application(ctx)
     r7_combination_accumulates(ctx)
@@ -469,4 +472,4 @@ def run(ctx):
 
 
 from .selftest import for_families as _ff  # noqa: E402
-selftest = _ff(['slice', 'loop', 'fold'])
+selftest = _ff(['slice', 'loop', 'fold', 'stale'])
